@@ -761,6 +761,7 @@ class PDFDocument:
         self._cached_objs: Dict[int, Tuple[object, int]] = {}
         self._parsed_objs: Dict[int, Tuple[List[object], int]] = {}
         self._parsing_objs: Set[int] = set()
+        self._xref_positions: Set[int] = set()
         self._fallback = fallback
         self._rescue_xref: Optional[PDFXRefFallback] = None
         self._parser = parser
@@ -1104,6 +1105,11 @@ class PDFDocument:
         xrefs: List[PDFBaseXRef],
     ) -> None:
         """Reads XRefs from the given location."""
+        if start in self._xref_positions:
+            # a /Prev or /XRefStm chain that leads back to a section already
+            # read: following it again would never end
+            return
+        self._xref_positions.add(start)
         try:
             parser.seek(start)
         except (OverflowError, ValueError, OSError):
